@@ -1077,10 +1077,12 @@ class Builtins:
             if meth == "items":
                 return ListV([TupleV([k, v]) for k, v in recv.pairs])
             if meth == "update":
-                other = args[0]
-                if isinstance(other, DictV):
-                    for k, v in other.pairs:
+                ps = self._pairs_of(args[0], node, fr) if args else []
+                if ps is not None:
+                    for k, v in ps:
                         self.store_subscript(recv, k, v, node, fr)
+                    for k, v in kwargs.items():
+                        self.store_subscript(recv, Str.lit(k), v, node, fr)
                     return NONE
             if meth == "copy":
                 return DictV(list(recv.pairs))
@@ -1238,12 +1240,46 @@ class Builtins:
 
     x_frozenset = x_set
 
+    def _pairs_of(self, v: Value, node, fr):
+        """the (key, value) pairs of a concrete mapping or sequence of pairs, or None"""
+        v = self.I.as_tuple(v)
+        if isinstance(v, ListV) and v.absorbed is not None:
+            return None
+        if isinstance(v, DictV):
+            return list(v.pairs)
+        if isinstance(v, (ListV, TupleV)):
+            out = []
+            for x in v.items:
+                x = self.I.as_tuple(x)
+                if not (isinstance(x, (TupleV, ListV)) and len(x.items) == 2):
+                    return None
+                out.append((x.items[0], x.items[1]))
+            return out
+        return None
+
     def x_dict(self, args, kwargs, node, fr) -> Value:
-        if not args:
-            return DictV([(Str.lit(k), v) for k, v in kwargs.items()])
-        if isinstance(args[0], DictV):
-            return DictV(list(args[0].pairs))
-        return Unknown(self.I.run.new_tag("dict"))
+        d = DictV([])
+        if args:
+            ps = self._pairs_of(args[0], node, fr)
+            if ps is None:
+                return Unknown(self.I.run.new_tag("dict"))
+            for k, v in ps:
+                self.store_subscript(d, k, v, node, fr)
+        for k, v in kwargs.items():
+            self.store_subscript(d, Str.lit(k), v, node, fr)
+        return d
+
+    def x_dict_fromkeys(self, args, kwargs, node, fr) -> Value:
+        keys = self.I.as_tuple(args[0]) if args else NONE
+        val = args[1] if len(args) > 1 else NONE
+        if isinstance(keys, DictV):
+            keys = ListV([k for k, _ in keys.pairs])
+        if isinstance(keys, (ListV, TupleV, SetV)) and getattr(keys, "absorbed", None) is None:
+            d = DictV([])
+            for k in keys.items:
+                self.store_subscript(d, k, val, node, fr)
+            return d
+        raise self.I.unsupported("dict.fromkeys over an abstract iterable", node, fr)
 
     def x_isinstance(self, args, kwargs, node, fr) -> Value:
         names = self.type_names(args[1], node, fr)
